@@ -630,6 +630,11 @@ Proof.
     exact H2.
 Qed.
 
+Lemma step_ci' : forall e s, (forall t, e <> ETick t) -> CI' s -> no_overdue s -> CI' (fst (handle c e s)).
+Proof.
+  intros e s Hne [H1 H2] H3. destruct (step_ci e Hne [] s (conj H1 (conj H2 H3))) as (R1 & R2 & _). split; assumption.
+Qed.
+
 (* fairness: between events no reactor call is overdue, at every point of the run *)
 Definition fair_run (evs : list event) : Prop :=
   forall evs1 evs2, evs = evs1 ++ evs2 -> no_overdue (fst (run c evs1)).
@@ -643,12 +648,264 @@ Proof.
   - assert (Hf' : fair_run evs).
     { intros a b Hab. apply (Hf a (b ++ [e])). rewrite Hab. rewrite app_assoc. reflexivity. }
     specialize (IH Hf'). rewrite run_app. simpl. rewrite run_from_cons. simpl.
-    destruct e; try (
-      assert (Hno : no_overdue (fst (run c evs))) by (apply (Hf evs [_]); reflexivity);
-      destruct IH as [I1 I2];
-      match goal with |- CI' (fst (handle c ?ev _)) =>
-        destruct (step_ci ev (fun t H => ltac:(discriminate H)) (snd (run c evs)) (fst (run c evs)) (conj I1 (conj I2 Hno))) as (R1 & R2 & _) end;
-      split; assumption).
+    destruct e;
+      try (apply step_ci'; [intros t0 Ht0; discriminate Ht0 | exact IH | eapply Hf; reflexivity]).
     apply tick_ci. exact IH.
 Qed.
+
+(* bounded closing, for fair runs *)
+Lemma closing_bounded_fair : forall evs tc, fair_run evs ->
+  st (fst (run c evs)) = CLOSING -> closingSince (fst (run c evs)) = Some tc ->
+  now (fst (run c evs)) <= tc + closeHandshakeTimeout c + (if is_server c then 0 else serverConnectionDropTimeout c).
+Proof.
+  intros evs tc Hf Hs Hc. destruct (ci_run evs Hf) as [_ H2].
+  assert (Hno : no_overdue (fst (run c evs))) by (apply (Hf evs []); rewrite app_nil_r; reflexivity).
+  destruct (H2 Hs) as (tc' & E & Hp). rewrite Hc in E. inversion E; subst tc'.
+  unfold no_overdue in Hno. rewrite Forall_forall in Hno.
+  destruct Hp as [(e & He1 & _ & He3)|[Hr (e & He1 & _ & He3)]]; specialize (Hno e He1).
+  - destruct (is_server c); lia.
+  - rewrite Hr. lia.
+Qed.
 End Closing.
+
+(* ================================================================================================ *)
+(* the clock is fair: Tick t runs every call due up to t, so no call is ever overdue between events *)
+
+Lemma min_time_le : forall l m, min_time l = Some m -> forall x, In x l -> m <= te_time x.
+Proof.
+  induction l as [|e r IH]; intros m H x Hx; [destruct Hx|]. simpl in H.
+  destruct (min_time r) as [m'|] eqn:E.
+  - inversion H; subst. destruct Hx as [Hx|Hx]; [subst; lia|]. specialize (IH m' eq_refl x Hx). lia.
+  - inversion H; subst. destruct Hx as [Hx|Hx]; [subst; lia|]. destruct r; [destruct Hx|simpl in E; destruct (min_time r); discriminate].
+Qed.
+Lemma min_time_none : forall l, min_time l = None -> l = [].
+Proof. destruct l as [|e r]; [reflexivity|]. simpl. destruct (min_time r); discriminate. Qed.
+Lemma min_time_in : forall l m, min_time l = Some m -> exists e, In e l /\ te_time e = m.
+Proof.
+  induction l as [|e r IH]; intros m H; [discriminate|]. simpl in H.
+  destruct (min_time r) as [m'|] eqn:E.
+  - inversion H; subst. destruct (N.min_spec (te_time e) m') as [[_ Hm]|[_ Hm]]; rewrite Hm.
+    + exists e. split; [left; reflexivity|reflexivity].
+    + destruct (IH m' eq_refl) as (x & X1 & X2). exists x. split; [right; exact X1|exact X2].
+  - inversion H; subst. exists e. split; [left; reflexivity|reflexivity].
+Qed.
+Lemma pop_at_some : forall m l, (exists e, In e l /\ te_time e = m) -> exists e rest, pop_at m l = Some (e, rest).
+Proof.
+  intros m l. induction l as [|e0 r IH]; intros (e & H1 & H2); [destruct H1|]. simpl.
+  destruct (te_time e0 =? m) eqn:E; [eauto|].
+  destruct H1 as [H1|H1]; [subst; rewrite N.eqb_refl in E; discriminate|].
+  destruct (IH (ex_intro _ e (conj H1 H2))) as (x & rest & Hx). rewrite Hx. eauto.
+Qed.
+
+Lemma pick_due_min : forall t l e rest, pick_due t l = Some (e, rest) -> forall x, In x l -> te_time e <= te_time x.
+Proof.
+  intros t l e rest H x Hx. unfold pick_due in H. destruct (min_time l) as [m|] eqn:Em; [|discriminate].
+  destruct (m <=? t); [|discriminate]. destruct (pop_at_spec m l e rest H) as (_ & G2 & _). rewrite G2.
+  eapply min_time_le; eauto.
+Qed.
+Lemma pick_due_none : forall t l, pick_due t l = None -> forall x, In x l -> t < te_time x.
+Proof.
+  intros t l H x Hx. unfold pick_due in H. destruct (min_time l) as [m|] eqn:Em.
+  - destruct (m <=? t) eqn:E.
+    + exfalso. destruct (pop_at_some m l (min_time_in l m Em)) as (e & rest & Hp). rewrite Hp in H. discriminate.
+    + apply N.leb_gt in E. pose proof (min_time_le l m Em x Hx). lia.
+  - apply min_time_none in Em. subst l. destruct Hx.
+Qed.
+
+Lemma on_timer_no : forall c k, presL I_no (on_timer c k).
+Proof. intros c k. destruct k; unfold on_timer; pres_go leaf_no blocks_no. Qed.
+
+Lemma fire_loop_no : forall c t fuel, presL I_no (fire_loop fuel c t).
+Proof.
+  intros c t fuel. apply presL_fire_loop'; [apply on_timer_no|].
+  intros log s e rest E H. unfold I_no, no_overdue in *. simpl.
+  destruct (pick_due_spec t _ e rest E) as (G1 & _ & _ & G4).
+  rewrite Forall_forall in *. intros x Hx. specialize (G4 x Hx).
+  pose proof (pick_due_min t _ e rest E x G4). specialize (H x G4). lia.
+Qed.
+
+(* weights: the loop terminates within the fuel computed by [tick] *)
+Lemma weight_pop : forall m l e rest, pop_at m l = Some (e, rest) ->
+  timers_weight l = (entry_weight e + timers_weight rest)%nat.
+Proof.
+  intros m l. induction l as [|e0 r IH]; intros e rest H; simpl in H; [discriminate|].
+  destruct (te_time e0 =? m).
+  - inversion H; subst. reflexivity.
+  - destruct (pop_at m r) as [[x r']|] eqn:Ep; [|discriminate]. inversion H; subst.
+    cbn [timers_weight fold_right]. fold (timers_weight r). fold (timers_weight r'). rewrite (IH _ _ eq_refl). lia.
+Qed.
+Lemma weight_bucket_add : forall rt n call l,
+  (timers_weight (bucket_add rt n call l) <= timers_weight l + S (call_weight call))%nat.
+Proof.
+  intros rt n call l. induction l as [|e0 r IH]; simpl.
+  - unfold entry_weight. simpl. lia.
+  - destruct (key_is rt e0); simpl.
+    + unfold entry_weight. simpl. rewrite fold_right_app. simpl.
+      assert (forall cs a, fold_right (fun c0 a0 => (call_weight c0 + a0)%nat) a cs =
+                           (fold_right (fun c0 a0 => (call_weight c0 + a0)%nat) 0%nat cs + a)%nat).
+      { induction cs; simpl; intros; [reflexivity|]. rewrite IHcs. lia. }
+      rewrite (H (te_calls e0)). lia.
+    + lia.
+Qed.
+
+Definition I_tm (l : list tentry) (log : list out) (s : cstate) : Prop := timers s = l.
+Ltac leaf_tm := intros log s HG HI; unfold I_tm in *; guard_facts; simpl in *; auto.
+
+Lemma on_timer_weight : forall c k st0,
+  (timers_weight (timers (fst (on_timer c k st0))) <= timers_weight (timers st0) + (match k with TAutoPing => 2 | _ => 0 end))%nat.
+Proof.
+  intros c k st0.
+  assert (Hsame : forall m, presL (I_tm (timers st0)) m -> (timers_weight (timers (fst (m st0))) <= timers_weight (timers st0) + 0)%nat).
+  { intros m P. specialize (P [] st0 eq_refl). unfold I_tm in P. rewrite P. lia. }
+  destruct k.
+  - apply Hsame. unfold on_timer. pres_go leaf_tm fail.
+  - apply Hsame. unfold on_timer. pres_go leaf_tm fail.
+  - apply Hsame. unfold on_timer. pres_go leaf_tm fail.
+  - (* _sendAutoPing *)
+    unfold on_timer, send_auto_ping. rewrite fst_seq, fst_seq. unfold upd at 1. cbn [fst].
+    set (s1 := (let seq := pingSeq st0 + 1 in set_pingPending (Some seq) (set_pingSeq seq (set_hPing None st0)))).
+    assert (T1 : timers s1 = timers st0) by reflexivity.
+    assert (T2 : timers (fst (bindS (fun s0 => send_ping (pingPending s0)) s1)) = timers st0).
+    { unfold bindS, send_ping, ifS, say, ret. destruct (in_state OPEN s1); simpl; exact T1. }
+    unfold whenM. destruct (0 <? autoPingTimeout c).
+    + destruct (arm_batched_eff TAutoPingTO (autoPingTimeout c) (fst (bindS (fun s0 => send_ping (pingPending s0)) s1))) as (Et & _ & _).
+      rewrite Et, T2. pose proof (weight_bucket_add (quant (now (fst (bindS (fun s0 => send_ping (pingPending s0)) s1)) + autoPingTimeout c))
+                                   (now (fst (bindS (fun s0 => send_ping (pingPending s0)) s1)))
+                                   (TAutoPingTO, nextId (fst (bindS (fun s0 => send_ping (pingPending s0)) s1))) (timers st0)) as W.
+      replace (call_weight (TAutoPingTO, nextId (fst (bindS (fun s0 => send_ping (pingPending s0)) s1)))) with 1%nat in W by reflexivity. lia.
+    + unfold ret. cbn [fst]. rewrite T2. lia.
+  - apply Hsame. unfold on_timer. pres_go leaf_tm fail.
+Qed.
+
+Lemma run_calls_weight : forall c calls s,
+  (timers_weight (timers (fst (run_calls c calls s))) <=
+   timers_weight (timers s) + fold_right (fun c0 a => call_weight c0 + a) 0 calls)%nat.
+Proof.
+  intros c calls. induction calls as [|[k id] r IH]; intro s; simpl.
+  - unfold ret. simpl. lia.
+  - rewrite fst_seq. specialize (IH (fst (on_timer c k s))). pose proof (on_timer_weight c k s) as W.
+    unfold call_weight at 1. simpl fst. destruct k; lia.
+Qed.
+
+Lemma fire_loop_complete : forall c t fuel s, (timers_weight (timers s) <= fuel)%nat ->
+  pick_due t (timers (fst (fire_loop fuel c t s))) = None.
+Proof.
+  intros c t fuel. induction fuel as [|f IH]; intros s Hw; simpl.
+  - destruct (timers s) as [|e r]; [reflexivity|]. simpl in Hw. unfold entry_weight in Hw. lia.
+  - unfold bindS. destruct (pick_due t (timers s)) as [[e rest]|] eqn:E; [|exact E].
+    rewrite fst_seq. unfold upd at 1. cbn [fst]. rewrite fst_seq. apply IH.
+    set (s1 := set_now (N.max (now s) (te_time e)) (set_timers rest s)).
+    pose proof (run_calls_weight c (te_calls e) s1) as W.
+    assert (T1 : timers s1 = rest) by reflexivity. rewrite T1 in W.
+    unfold pick_due in E. destruct (min_time (timers s)) as [m|]; [|discriminate]. destruct (m <=? t); [|discriminate].
+    pose proof (weight_pop m _ e rest E) as Wp. unfold entry_weight in Wp. lia.
+Qed.
+
+Lemma tick_no : forall c t, presL I_no (tick c t).
+Proof.
+  intros c t log s H. unfold tick. rewrite fst_seq. unfold bindS, upd. cbn [fst].
+  pose proof (fire_loop_no c t (timers_weight (timers s)) log s H) as H1.
+  pose proof (fire_loop_complete c t (timers_weight (timers s)) s (Nat.le_refl _)) as H2.
+  set (s1 := fst (fire_loop (timers_weight (timers s)) c t s)) in *.
+  unfold I_no, no_overdue in *. simpl.
+  replace (timers (set_now (N.max (now s1) t) s1)) with (timers s1) by (destruct s1; reflexivity).
+  rewrite Forall_forall in *. intros x Hx. specialize (H1 x Hx). pose proof (pick_due_none t _ H2 x Hx). lia.
+Qed.
+
+(* C17_tick_complete: after Tick t nothing scheduled for a time <= t is left *)
+Lemma tick_complete : forall c t s x, In x (timers (fst (step c s (ETick t)))) -> t < te_time x.
+Proof.
+  intros c t s x Hx. unfold step, handle, tick in Hx. rewrite fst_seq in Hx. unfold bindS, upd in Hx. cbn [fst] in Hx.
+  pose proof (fire_loop_complete c t (timers_weight (timers s)) s (Nat.le_refl _)) as H2.
+  set (s1 := fst (fire_loop (timers_weight (timers s)) c t s)) in *.
+  replace (timers (set_now (N.max (now s1) t) s1)) with (timers s1) in Hx by (destruct s1; reflexivity).
+  apply (pick_due_none t _ H2 x Hx).
+Qed.
+
+Lemma no_overdue_run : forall c evs, no_overdue (fst (run c evs)).
+Proof.
+  intros c evs. apply (presL_run I_no c).
+  - unfold I_no, no_overdue, init, whenM. destruct (0 <? openHandshakeTimeout c).
+    + apply (arm_batched_no TOpenHS (openHandshakeTimeout c) [] (init0 c)). unfold I_no, no_overdue. simpl. constructor.
+    + simpl. constructor.
+  - intro e. destruct e; try (apply step_no; intros t0 Ht0; discriminate Ht0). apply tick_no.
+Qed.
+
+Lemma all_runs_fair : forall c evs, fair_run c evs.
+Proof. intros c evs evs1 evs2 _. apply no_overdue_run. Qed.
+
+(* C05_bounded *)
+Lemma closing_bounded_all : forall c, 0 < closeHandshakeTimeout c ->
+  (is_server c = false -> 0 < serverConnectionDropTimeout c) ->
+  forall evs tc, st (fst (run c evs)) = CLOSING -> closingSince (fst (run c evs)) = Some tc ->
+  now (fst (run c evs)) <= tc + closeHandshakeTimeout c + (if is_server c then 0 else serverConnectionDropTimeout c).
+Proof. intros c H1 H2 evs tc. apply closing_bounded_fair; auto. apply all_runs_fair. Qed.
+
+(* once CLOSING or CLOSED, closingSince is frozen *)
+Definition I_csr (v : option N) (log : list out) (s : cstate) : Prop := (2 <= rank (st s))%nat /\ closingSince s = v.
+Lemma I_csr_core : forall v, core_only (I_csr v).
+Proof.
+  unfold core_only, I_csr. intros v log s s' H. rewrite (core_st _ _ H).
+  destruct H as (_&_&_&_&_&_&_&_&_&_&_&_&_&_&_&_&_&E18&_). rewrite E18. auto.
+Qed.
+Ltac absurd_csr :=
+  intros log s HG HI; unfold I_csr in *; guard_facts; simpl in *;
+  match goal with H : st ?x = _, H2 : (2 <= rank (st ?x))%nat |- _ => rewrite H in H2; simpl in H2; lia end.
+Ltac leaf_csr :=
+  intros log s HG HI; unfold I_csr in *; guard_facts; simpl in *;
+  try solve [ intuition (try lia; try congruence)
+            | match goal with H : (2 <= rank ?w)%nat /\ _ |- _ => destruct H; split; [simpl; lia|auto] end ].
+Lemma on_timer_csr : forall v c k, presL (I_csr v) (on_timer c k).
+Proof. intros v c k. pose proof (I_csr_core v) as Hcore. destruct k; unfold on_timer; pres_go3 leaf_csr fail absurd_csr. Qed.
+Lemma step_csr : forall v c e, presL (I_csr v) (handle c e).
+Proof.
+  intros v c e. pose proof (I_csr_core v) as Hcore.
+  destruct e; unfold handle;
+    try (apply presL_tick; [apply on_timer_csr | unfold time_insensitive, I_csr; intros; simpl; assumption]);
+    pres_go3 leaf_csr fail absurd_csr.
+Qed.
+
+(* C05_bounded, as a statement about every later point of the run *)
+Lemma closing_bounded_later : forall c, 0 < closeHandshakeTimeout c ->
+  (is_server c = false -> 0 < serverConnectionDropTimeout c) ->
+  forall evs evs2 tc, st (fst (run c evs)) = CLOSING -> closingSince (fst (run c evs)) = Some tc ->
+  tc + closeHandshakeTimeout c + (if is_server c then 0 else serverConnectionDropTimeout c) < now (fst (run c (evs ++ evs2))) ->
+  st (fst (run c (evs ++ evs2))) = CLOSED.
+Proof.
+  intros c H1 H2 evs evs2 tc Hs Hc Hlt.
+  assert (Hinv : I_csr (Some tc) (snd (run c (evs ++ evs2))) (fst (run c (evs ++ evs2)))).
+  { rewrite run_app. apply presL_run_from; [intro; apply step_csr|]. unfold I_csr. rewrite Hs. simpl. split; [lia|exact Hc]. }
+  destruct Hinv as [Hr Hc2].
+  destruct (st (fst (run c (evs ++ evs2)))) eqn:E; simpl in Hr; try lia; [|reflexivity].
+  exfalso. pose proof (closing_bounded_all c H1 H2 (evs ++ evs2) tc E Hc2). lia.
+Qed.
+
+(* once CLOSED the timeout flags never change any more *)
+Definition I_flags (a b d : bool) (log : list out) (s : cstate) : Prop :=
+  st s = CLOSED /\ wasOpenTO s = a /\ wasCloseTO s = b /\ wasDropTO s = d.
+Lemma I_flags_core : forall a b d, core_only (I_flags a b d).
+Proof.
+  unfold core_only, I_flags. intros a b d log s s' H. rewrite (core_st _ _ H).
+  destruct H as (_&_&_&_&_&_&_&_&_&_&_&_&E13&E14&E15&_). rewrite E13, E14, E15. auto.
+Qed.
+Ltac absurd_flags := intros log s HG HI; unfold I_flags in *; guard_facts; simpl in *; try congruence; try discriminate.
+Ltac leaf_flags := intros log s HG HI; unfold I_flags in *; guard_facts; simpl in *;
+  try solve [ intuition (try congruence; try discriminate) ].
+Lemma on_timer_flags : forall a b d c k, presL (I_flags a b d) (on_timer c k).
+Proof. intros a b d c k. pose proof (I_flags_core a b d) as Hcore. destruct k; unfold on_timer; pres_go3 leaf_flags fail absurd_flags. Qed.
+Lemma step_flags : forall a b d c e, presL (I_flags a b d) (handle c e).
+Proof.
+  intros a b d c e. pose proof (I_flags_core a b d) as Hcore.
+  destruct e; unfold handle;
+    try (apply presL_tick; [apply on_timer_flags | unfold time_insensitive, I_flags; intros; simpl; assumption]);
+    pres_go3 leaf_flags fail absurd_flags.
+Qed.
+Lemma flags_frozen : forall c evs evs2, st (fst (run c evs)) = CLOSED ->
+  let s := fst (run c evs) in let s2 := fst (run c (evs ++ evs2)) in
+  st s2 = CLOSED /\ wasOpenTO s2 = wasOpenTO s /\ wasCloseTO s2 = wasCloseTO s /\ wasDropTO s2 = wasDropTO s.
+Proof.
+  intros c evs evs2 H. cbv zeta. rewrite run_app.
+  apply (presL_run_from (I_flags (wasOpenTO (fst (run c evs))) (wasCloseTO (fst (run c evs))) (wasDropTO (fst (run c evs)))) c
+           (step_flags _ _ _ c) evs2 (fst (run c evs)) (snd (run c evs))).
+  unfold I_flags. auto.
+Qed.
